@@ -33,6 +33,17 @@ def apply_edit(root, edit, now_ns):
         return False            # in-place edits are only generated for regular files
     if not os.path.isdir(os.path.dirname(p)):
         return False
+    if k == "rewrite_through":
+        # an ordinary write to the path: through a symbolic link it changes the link's TARGET (same length,
+        # target's mtime = now; the link's own times stay)
+        try:
+            tsize = os.stat(p).st_size
+        except OSError:
+            return False
+        with open(p, "r+b") as f:
+            f.write(content_bytes({"uniq": uid, "len": max(tsize, 1)})[:tsize] if tsize else b"")
+        _stamp(p, now_ns)
+        return True
     if k == "rewrite_same":
         if st is None:
             return False
